@@ -60,21 +60,25 @@ Delivery: `paced` = the native events of each operation are delivered (in every 
   native events are delivered afterwards (every cut / coalescing); only P_C20_ReplicaMatches (+ the non-recursive
   clause) is evaluated there.
 
-Genuine defects found on the unchanged tree (reported as VIOLATIONs until they are registered in known_findings.json)
--------------------------------------------------------------------------------------------------------------------
-Each has a signature  <clause>:<id>:<name>  (FINDINGS below), a feature PREDICTOR written from the scenario alone
-(`predict`), a *_neg_<id>.cfg in which TLC finds the same violation in the model, and - where small - a patch under
-/verif/proposed_fixes/.  A failing clause is attributed to a finding only if the scenario has that finding's feature
-and the clause is one the finding explains; every other failing clause gets the signature <clause>:<layer>:unexplained,
-which is what a regression produces (reported first).
-  W1  Windows: RENAMED_OLD_NAME / RENAMED_NEW_NAME split across two reads -> Moved('' -> new)      (patch)
+Genuine defects (found by this check on the pinned tree)
+--------------------------------------------------------
+Each OPEN finding has a signature  <clause>:<id>:<name>  (FINDINGS below), a feature PREDICTOR written from the scenario
+alone (`predict`) and a *_neg_<id>.cfg in which TLC finds the same violation in the model; they are registered in
+/verif/known_findings.json (matched by ":<id>:"), so the check prints KNOWN-FINDING lines for them and exits 0.  A
+failing clause is attributed to a finding only if the scenario has that finding's feature and the clause is one the
+finding explains; every other failing clause gets the signature <clause>:<layer>:unexplained = VIOLATION, exit 1.
   W2  Windows: ADDED / NEW record translated after its path changed again (isdir at translation time; back to back)
-  W3  Windows decoder: names decoded with 'utf-16' (BOM-sensitive) instead of 'utf-16-le'           (patch)
-  F1  FSEvents non-recursive: created / deleted / moved-away events of child DIRECTORIES dropped     (patch)
+  F1  FSEvents non-recursive: created / deleted / moved-away events of child DIRECTORIES dropped  (proposed_fixes/)
   F2  FSEvents non-recursive: moved events across the root / sub-directory boundary name a deep path (literal reading of
       "never reports anything below the root's direct children"; any path of any queued event counts)
   F3  FSEvents: rename pair split across callback batches -> deleted + created, not one moved event
   F4  FSEvents: an item renamed / moved twice before translation -> ItemRenamed events mis-paired by inode
+FIXED in /repo, no longer predicted - a recurrence is "unexplained" and therefore a VIOLATION:
+  W1  (ad9135d) Windows: RENAMED_OLD_NAME / RENAMED_NEW_NAME split across two reads gave Moved('' -> new); the scenarios
+      with such a cut (flag `splitpair`) stay in the enumeration, WinXlat.tla models the repaired emitter and
+      WinXlat_neg_W1.cfg (LocalRenameSource = TRUE, the old code) must still be refuted by TLC.
+  W3  (dccf2bb) Windows decoder: names decoded with 'utf-16' swallowed a leading U+FEFF; the BOM names stay as decoder
+      cases.
 
 Readings of the property text chosen here
 -----------------------------------------
@@ -1158,9 +1162,6 @@ def random_job(L, S, seed):
 # --------------------------------------------------------------------------------------------------------------------
 
 FINDINGS = {
-    "W1": ("win-rename-pair-split-across-reads", {"R", "N"},
-           "RENAMED_OLD_NAME is the last record of one ReadDirectoryChangesW buffer and RENAMED_NEW_NAME the first of the "
-           "next: queue_events() forgets the source (local variable reset per call) and queues Moved('' -> new)"),
     "W2": ("win-stale-isdir-at-translation-time", {"R"},
            "an ADDED / RENAMED_NEW_NAME record is translated after its path changed again (back to back, e.g. a directory "
            "created or moved in and immediately renamed): os.path.isdir(path) answers for another moment, a directory is "
@@ -1187,7 +1188,8 @@ def predict(sc, flags):
     ops = [tuple(tuple(x) if isinstance(x, list) else x for x in o) for o in sc["ops"]]
     out = set()
     if "splitpair" in flags:
-        out.add("W1" if layer == "win" else "F3")
+        if layer == "fse":        # (Windows: W1 is fixed - a split pair must translate like an unsplit one)
+            out.add("F3")
     pos = 0
     t = tree
     for gn in sc["groups"]:
@@ -1397,6 +1399,7 @@ DESIGN_RUNS = {
                      ["T_CreatedRemoved", "T_Plain", "T_RenamedPair", "T_RenamedIn", "T_RenamedOut", "T_RootChanged"]),
     "Codec": ("Codec", "Codec_quick.cfg", "Codec_thorough.cfg", ["D_WinRecord", "D_WinEnd", "D_InoRecord", "D_InoEnd"]),
 }
+FIXED = {"W1": "ad9135d"}      # repaired in /repo: the neg config stays as a non-vacuity check of the model's switch
 NEG_RUNS = {  # finding -> (module, cfg, invariant TLC must find violated)
     "W1": ("WinXlat", "WinXlat_neg_W1.cfg", "Xlat_ReplicaMatches"),
     "W2": ("WinXlat", "WinXlat_neg_W2.cfg", "Xlat_ReplicaMatches"),
@@ -1405,10 +1408,6 @@ NEG_RUNS = {  # finding -> (module, cfg, invariant TLC must find violated)
     "F3": ("FSEventsXlat", "FSEventsXlat_neg_F3.cfg", "Xlat_RenameIsOneMovedEvent"),
     "F4": ("FSEventsXlat", "FSEventsXlat_neg_F4.cfg", "Xlat_ReplicaMatches"),
 }
-FINDINGS["W3"] = ("win-filename-decoded-as-utf-16-with-bom", {"D"},
-                  "winapi._parse_event_buffer decodes FileName with codec 'utf-16': a name that starts with U+FEFF loses "
-                  "its first character (taken for a byte-order mark); 'utf-16-le' is the layout of the structure")
-
 
 def scenario_jobs(thorough):
     jobs = []
@@ -1507,7 +1506,7 @@ def run(c: checklib.Check):
                 sig, clause = "P_C20_Explainable:unexplained", "P_C20_Explainable"
             elif "decoder" in sc:
                 clause = CLAUSES[code]
-                sig = f"{clause}:W3:{FINDINGS['W3'][0]}" if sc["decoder"] == "bom" else f"{clause}:decoder:unexplained"
+                sig = f"{clause}:decoder-{sc['decoder']}:unexplained"
             else:
                 clause = CLAUSES[code]
                 sig = signature(sc, flags, code)
@@ -1527,14 +1526,14 @@ def run(c: checklib.Check):
     # signature is re-executed here to get its native batches and queued events for the replay file
     S = Scratch()
     try:
-        rank = {f: i for i, f in enumerate(("W1", "W2", "F1", "F4", "F3", "F2", "W3"))}
+        rank = {f: i for i, f in enumerate(("W2", "F1", "F4", "F3", "F2"))}
         for sig in sorted(by_sig, key=lambda x: (0 if "unexplained" in x else 1, rank.get(x.split(":")[1], 9), x)):
             v = by_sig[sig]
             if "decoder" in v["sc"]:
                 bad = [ln for ln in uniq[v["key"]] if ln["enc"] != ln["dec"]][:3]
                 what = f"decoded records differ from the encoded ones in {v['n']} trace(s), e.g. {bad}"
                 if v["sc"]["decoder"] == "bom":
-                    what = FINDINGS["W3"][2] + "; " + what
+                    what = "a Windows name with U+FEFF is not decoded as encoded (regression of dccf2bb?); " + what
                 replay = {"decoder_lines": bad}
             else:
                 lines, detail, _fl = run_scenario(L, S, v["sc"])
@@ -1564,10 +1563,11 @@ def run(c: checklib.Check):
             if want not in r.violated:
                 c.machinery_failure(f"{cfg}: the model does not reproduce finding {fid} (expected {want} violated, got "
                                     f"{r.violated} {r.errors[:2]})")
-            c.note(f"TLC {cfg}: {want} violated as expected (finding {fid} "
-                   f"{'also observed on the real emitter' if fid in observed else 'NOT observed on the real emitter: model drift'}), "
-                   f"{r.distinct} states, {r.wall:.1f}s")
-            if fid not in observed:
+            how = (f"fixed in /repo by {FIXED[fid]}: the switch models the old code" if fid in FIXED else
+                   "also observed on the real emitter" if fid in observed else
+                   "NOT observed on the real emitter: model drift")
+            c.note(f"TLC {cfg}: {want} violated as expected (finding {fid}, {how}), {r.distinct} states, {r.wall:.1f}s")
+            if fid not in observed and fid not in FIXED:
                 c.cov["drift_traces"] += 1
         else:
             for act in DESIGN_RUNS[name][3]:
